@@ -2,7 +2,7 @@
 # usage: tools/try_seed.sh <seed dir with patch.diff + *_test.go> <scratch worktree> <demo -run regex> <check ids...>
 # 1. confirms in the scratch worktree: demo passes without the patch, fails with it, suite passes with it
 # 2. applies the patch to /repo, runs the given checks (quick), and reverts /repo
-export GOFLAGS=-mod=mod GOPROXY=off GOSUMDB=off GOTOOLCHAIN=local
+export GOFLAGS=-mod=mod GOPROXY=off GOSUMDB=off GOTOOLCHAIN=local VERIF_NO_EVIDENCE=1
 SEED="$1"; WT="$2"; RUNRE="$3"; shift 3
 DEMO=$(ls "$SEED"/*_test.go | head -1)
 DEMOPKG="${DEMO_PKG:-.}"
